@@ -118,7 +118,14 @@ var FieldDeepEqualContainer = `
 	{{- $idx := "i"}}
 	{{- if eq .Type.Category.String "Map" }}{{$idx = "k"}}{{end}}
 	for {{$idx}}, v := range {{.Target}} {
+		{{- if eq .Type.Category.String "Map" }}
+		{{$src}}, ok := {{.Source}}[{{$idx}}]
+		if !ok {
+			return false
+		}
+		{{- else}}
 		{{$src}} := {{.Source}}[{{$idx}}]
+		{{- end}}
 		{{- $ctx := (.ValCtx.WithTarget "v").WithSource $src}}
 		{{- template "FieldDeepEqual" $ctx}}
 	}
